@@ -25,7 +25,7 @@ class Run:
         self.hir = ctx.anchor_hir(LSR)
         self.ps = ctx.prog.fns[LSR]["params"]
 
-    def run(self, mode, order=(), asc=(), out_fail_at=None, out_fail="pipe", group_values=None, buffered_rows=("r1", "r2", "r3"), group_fields=("g",), limit=0):
+    def run(self, mode, order=(), asc=(), out_fail_at=None, out_fail="pipe", group_values=None, buffered_rows=("r1", "r2", "r3"), group_fields=("g",), limit=0, roots=(), found_per_root=0):
         """mode: "grouped" | "aggregate" | "buffered" | "streamed".
         group_values: {group key tuple: {column tag: value}} for the grouped mode (value per selected column).
         out_fail_at: index of the standard-output operation that fails (None: none).
@@ -39,9 +39,12 @@ class Run:
         for k, vals in group_values.items():
             dict.__setitem__(parts, tuple(k), [interp.HMap({"__part": k})])
         q = {"expr": interp.NONE, "fields": [tagged(t) for t in select], "ordering_fields": [tagged(t) for t in order], "ordering_asc": list(asc),
-             "grouping_fields": [tagged(t) for t in group_fields] if mode == "grouped" else [], "roots": [], "limit": limit}
+             "grouping_fields": [tagged(t) for t in group_fields] if mode == "grouped" else [],
+             "roots": [{"path": r, "options": {"min_depth": 0, "max_depth": 0, "archives": False, "symlinks": False, "gitignore": interp.NONE, "hgignore": interp.NONE,
+                                              "dockerignore": interp.NONE, "traversal": interp.V("TraversalMode::Bfs"), "regexp": False, "alias": interp.NONE}} for r in roots],
+             "limit": limit}
         selfv = {"query": q, "results_writer": {"__rw": True}, "output_buffer": {"__ob": True}, "raw_output_buffer": [interp.HMap({"__part": "all"})],
-                 "partitioned_output_buffer": parts, "config": {"debug": False}, "error_count": 0, "found": len(buffered_rows), "dir_queue": [],
+                 "partitioned_output_buffer": parts, "config": {"debug": False, "gitignore": interp.NONE, "hgignore": interp.NONE, "dockerignore": interp.NONE}, "error_count": 0, "found": len(buffered_rows) if not roots else 0, "dir_queue": [], "default_config": {"gitignore": interp.NONE, "hgignore": interp.NONE, "dockerignore": interp.NONE},
                  "hgignore_filters": [], "dockerignore_filters": [], "visited_inodes": set(), "current_follow_symlinks": False}
 
         def stdout_op(what):
@@ -53,6 +56,16 @@ class Run:
         def call(node, recv, args, it, env):
             callee = str(node.get("callee", ""))
             m = node.get("m")
+            if m == "visit_dir" or callee.endswith("::visit_dir"):
+                ev.append(("visit", args[0] if args else None))
+                selfv["found"] = selfv["found"] + found_per_root
+                return (interp.V("Result::Ok", [()]),)
+            if callee.endswith("Path::new") and args:
+                return (args[0],)
+            if callee.endswith("symlink_metadata") or m in ("metadata", "symlink_metadata"):
+                return (interp.V("Result::Err", [interp.Opaque("no stat in the scenario")]),)
+            if callee.endswith("Repository::discover") or callee.endswith("Repository::open"):
+                return (interp.V("Result::Err", [interp.Opaque("no repository in the scenario")]),)
             if callee.endswith("env::current_dir"):
                 return (interp.V("Result::Ok", [interp.Opaque("cwd")]),)
             if callee.endswith("Instant::now"):
@@ -235,6 +248,20 @@ def output_phase(ctx):
             if not ok:
                 bad("groups/ordering-direction", "group rows must be compared a-vs-b for ascending keys and b-vs-a for descending ones, for numbers and for text alike: "
                     "ORDER BY %s %s gives %s, expected %s" % (list(order), ["asc" if x else "desc" for x in asc], seq, want))
+        # (5b) with search roots: the header precedes the walk, every root is walked in order (a reached LIMIT may cut the list
+        # short), and the footer is written after the walk whatever the walk found
+        for mode in ("streamed", "buffered"):
+            for lim in (0, 1):
+                got, ev = run.run(mode, roots=("/r1", "/r2", "/r3"), limit=lim, found_per_root=1, buffered_rows=())
+                n += 1
+                visits = [e[1] for e in ev if e[0] == "visit"]
+                o = outs(ev)
+                ok = okres(got) and o[:1] == ["write_header"] and o[-1:] == ["write_footer"] and visits == ["/r1", "/r2", "/r3"][:len(visits)] and \
+                    (lim != 0 or len(visits) == 3) and len(visits) >= 1
+                ctx.obligation(ok)
+                if not ok:
+                    bad("framing/roots", "with three search roots (%s, limit %d) the output must be header, rows, footer and the roots must be walked in order; "
+                        "walked %s, standard output receives %s, result %s" % (mode, lim, visits, o, got))
         # (6) a closed or failing standard output: no panic, and nothing but a stop or a propagated error
         for mode in ("buffered", "aggregate", "grouped", "streamed"):
             base, ev0 = run.run(mode)
